@@ -552,7 +552,11 @@ Definition step (st : mstate) (e : tev) : mstate :=
   | TResetStart r => on_reset_task st r true false
   | TResetNoop r => on_reset_task st r false true
   | TConnSub c => set_conns st (c :: connsubs st) (settled_gone st)
-  | TConnUnsub c => set_conns st (filter (fun x => negb (Nat.eqb x c)) (connsubs st)) (settled_gone st)
+  | TConnUnsub c =>
+      (* the gateway has carried out the close of connection c (it releases the connection-event subscription in that
+         very task): from here on it makes no request on c's behalf *)
+      set_conns st (filter (fun x => negb (Nat.eqb x c)) (connsubs st))
+                (if mem c (gone st) && negb (mem c (settled_gone st)) then c :: settled_gone st else settled_gone st)
   | _ => st
   end.
 
